@@ -168,6 +168,11 @@ def runLoop (name : String) : CState → List Tick → List LoopOut
   | _, [] => []
   | s, t :: ts => let (s', o) := loopStep name s t; o :: runLoop name s' ts
 
+/-- the module's state after a tick sequence -/
+def loopState (name : String) : CState → List Tick → CState
+  | s, [] => s
+  | s, t :: ts => loopState name (loopStep name s t).1 ts
+
 /-- the refresh cycles a tick sequence amounts to: each offset tick, with "a metadata tick arrived
     since the previous offset tick" as its flag -/
 def cyclesOf : Bool → List Tick → List (Bool × Env)
